@@ -1030,7 +1030,7 @@ func execBlkAPI(raw []byte) string {
 }
 
 // decQ is the dec op without the allocation verdict (used where several decodes overlap).
-func decQ(sub string, keep *any) func() string {
+func decQ(sub string, cheap *bool) func() string {
 	p := strings.Split(sub, "/")
 	if len(p) != 4 {
 		return func() string { return "bad-op" }
@@ -1070,6 +1070,9 @@ func decQ(sub string, keep *any) func() string {
 		if e2 == nil {
 			re = hx(w.Bytes())
 		}
+		if cheap != nil && *cheap {
+			return re
+		}
 		return fmt.Sprintf("ok %s %s %d", dump(m, pver), re, rest) + extra(m)
 	}
 }
@@ -1099,15 +1102,21 @@ func execMulti(mode string, subs []string) string {
 					out[i] = "panic"
 				}
 			}()
-			first := ""
-			for k := 0; k < 3+i%3; k++ {
-				o := decQ(s, nil)
-				runtime.Gosched()
-				got := o()
-				if k == 0 {
-					first = got
-				} else if got != first {
+			first := decQ(s, nil)()
+			reps := 3 + i%3
+			if len(s) < 700 {
+				reps = 20000 // small messages: many overlapping uses of the shared scratch-buffer free list
+			}
+			cheap := true
+			want := decQ(s, &cheap)()
+			for k := 0; k < reps; k++ {
+				o := decQ(s, &cheap)
+				if k%64 == 0 {
+					runtime.Gosched()
+				}
+				if o() != want {
 					first = "unstable"
+					break
 				}
 			}
 			out[i] = first
